@@ -10,7 +10,7 @@ DRIVER = c03_model.DRIVER            # "C03model": correspondence implementation
 EXTRA_DRIVERS = [c03_spec.DRIVER_SPEC]
 EXTRA_TARGETS = ["Proofs/VMpyP.vo", "Proofs/VMpySigP.vo", "Proofs/VMpyTieC04.vo", "Proofs/CondStackP.vo",
                  "Extract/ExtractC03spec.vo"]
-EXTRA_PROPS = ["C03agree"]
+EXTRA_PROPS = ["C03agree", "C03spend"]
 INTERACTIVE = True
 ORACLES = c03_model.ORACLES
 RULE = (c03_model.RULE_MODEL + "; direct checks: real pycoin (BitcoinVM.eval_script / Tx.check_solution) vs the extracted Core spec "
